@@ -12,7 +12,7 @@ use crate::{
         rangeint::RFrom,
         t::{self, C},
     },
-    SignedDuration, Timestamp, Zoned,
+    SignedDuration, Timestamp, Unit, Zoned,
 };
 
 #[derive(Clone, Debug)]
@@ -80,6 +80,15 @@ impl DateTimePrinter {
             self.print_zulu(&mut wtr)?;
             return Ok(());
         };
+        // RFC 3339 only supports offsets with a precision of minutes. Unlike
+        // for a zoned datetime, there is no time zone annotation from which a
+        // more precise offset could be recovered. So the civil datetime we
+        // print has to agree with the offset we print (which is rounded to
+        // the nearest minute), and not with the offset given. Otherwise, the
+        // text denotes a different instant than the one given. (When the
+        // offset is so close to its limit that it can't be rounded, then we
+        // use it as is.)
+        let offset = offset.round(Unit::Minute).unwrap_or(offset);
         let dt = offset.to_datetime(*timestamp);
         self.print_datetime(&dt, &mut wtr)?;
         self.print_offset_rounded(&offset, &mut wtr)?;
